@@ -1161,6 +1161,49 @@ func ruleInclusiveFlagsSingleInterpreter(r *Report, rule string) {
 			return true
 		})
 	}
+	// presence: every range query type hands each of its inclusive flags to the constructor in Searcher()
+	qpk := p.Pkg("search/query")
+	for _, name := range qpk.Types.Scope().Names() {
+		tn, ok := qpk.Types.Scope().Lookup(name).(*types.TypeName)
+		if !ok {
+			continue
+		}
+		st, ok := tn.Type().Underlying().(*types.Struct)
+		if !ok {
+			continue
+		}
+		var flags []*types.Var
+		for i := 0; i < st.NumFields(); i++ {
+			if f := st.Field(i); strings.HasPrefix(f.Name(), "Inclusive") && f.Type().String() == "*bool" {
+				flags = append(flags, f)
+			}
+		}
+		if len(flags) == 0 {
+			continue
+		}
+		sfi := p.funcs["search/query.(*"+name+").Searcher"]
+		if sfi == nil || sfi.Decl.Body == nil {
+			undecidedf("range query type %s has inclusive flags but no Searcher method was found", name)
+		}
+		sinfo := sfi.Pkg.TypesInfo
+		for _, fl := range flags {
+			passed := false
+			for _, c := range callsDeep(sfi.Decl.Body) {
+				f := callee(sinfo, c)
+				if f == nil || f.Pkg() == nil || !strings.HasSuffix(f.Pkg().Path(), "/search/searcher") || !strings.HasSuffix(f.Name(), "RangeSearcher") {
+					continue
+				}
+				for _, a := range c.Args {
+					if sel, ok := ast.Unparen(a).(*ast.SelectorExpr); ok && info0(sinfo, sel) == fl {
+						passed = true
+					}
+				}
+			}
+			n++
+			r.Fn(sfi)
+			r.Ob(rule, sfi.Name+"/"+fl.Name()+"-reaches-the-range-searcher", sfi.Decl.Pos(), passed, name+"."+fl.Name()+" is a serialised option of the query; Searcher() must hand it to the range searcher constructor (a refactor that delegates to another query type or rebuilds the call without it silently falls back to the defaults: start inclusive, end exclusive)")
+		}
+	}
 	// constructors: defaults and order
 	for _, fi := range p.funcsInPkg("search/searcher") {
 		if fi.Decl.Body == nil || !strings.HasSuffix(fi.Obj.Name(), "RangeSearcher") {
@@ -3062,5 +3105,87 @@ func ruleSearcherCountIsAnEstimate(r *Report, rule string) {
 	}
 	if n < 8 {
 		undecidedf("searcher Count() rule matched %d uses", n)
+	}
+}
+
+func info0(info *types.Info, sel *ast.SelectorExpr) types.Object { return info.ObjectOf(sel.Sel) }
+
+// ruleQueryOptionsReachSearcher (K9b): every exported, JSON-serialised field of
+// a query type is an option the user can set and that survives a round trip;
+// the type's Searcher() (or a method of the same receiver it calls, one level)
+// must read it.  An option that Searcher() never looks at is silently ignored -
+// the typical result of rebuilding a constructor call or delegating to another
+// query type during a refactor.
+func ruleQueryOptionsReachSearcher(r *Report, rule string, allow map[string]string) {
+	p := r.P
+	qpk := p.Pkg("search/query")
+	n := 0
+	for _, name := range qpk.Types.Scope().Names() {
+		tn, ok := qpk.Types.Scope().Lookup(name).(*types.TypeName)
+		if !ok {
+			continue
+		}
+		st, ok := tn.Type().Underlying().(*types.Struct)
+		if !ok {
+			continue
+		}
+		sfi := p.funcs["search/query.(*"+name+").Searcher"]
+		if sfi == nil || sfi.Decl.Body == nil {
+			continue
+		}
+		info := sfi.Pkg.TypesInfo
+		read := map[string]bool{}
+		var scan func(fi *FuncInfo, depth int)
+		visited := map[*FuncInfo]bool{}
+		scan = func(fi *FuncInfo, depth int) {
+			if visited[fi] || fi.Decl.Body == nil {
+				return
+			}
+			visited[fi] = true
+			recv := recvObj(fi)
+			ast.Inspect(fi.Decl.Body, func(x ast.Node) bool {
+				if sel, ok := x.(*ast.SelectorExpr); ok && recv != nil && objOf(fi.Pkg.TypesInfo, sel.X) == recv {
+					if v, ok := fi.Pkg.TypesInfo.ObjectOf(sel.Sel).(*types.Var); ok && v.IsField() {
+						read[v.Name()] = true
+					}
+				}
+				// the receiver handed on as a whole (e.g. to a helper taking the query): every field may be read
+				if c, ok := x.(*ast.CallExpr); ok {
+					for _, a := range c.Args {
+						if recv != nil && objOf(fi.Pkg.TypesInfo, a) == recv {
+							read["*"] = true
+						}
+					}
+					if depth < 2 {
+						if f := callee(fi.Pkg.TypesInfo, c); f != nil {
+							if s2, ok := ast.Unparen(c.Fun).(*ast.SelectorExpr); ok && recv != nil && objOf(fi.Pkg.TypesInfo, s2.X) == recv {
+								if nf := p.funcs[funcName(f)]; nf != nil {
+									scan(nf, depth+1)
+								}
+							}
+						}
+					}
+				}
+				return true
+			})
+		}
+		scan(sfi, 0)
+		_ = info
+		for _, jf := range jsonFieldsOf(st) {
+			if !jf.Var.Exported() || jf.Skip || !jf.Tagged {
+				continue
+			}
+			n++
+			r.Fn(sfi)
+			key := name + "." + jf.Var.Name()
+			if why, ok := allow[key]; ok && !read[jf.Var.Name()] && !read["*"] {
+				r.Allow(rule, key+"/read-by-Searcher", jf.Var.Pos(), why)
+				continue
+			}
+			r.Ob(rule, key+"/read-by-Searcher", jf.Var.Pos(), read[jf.Var.Name()] || read["*"], "option "+key+" (json \""+jf.Key+"\") is never read by "+name+".Searcher() or the receiver methods it calls: the option is accepted, serialised and ignored")
+		}
+	}
+	if n < 40 {
+		undecidedf("query option rule matched %d fields", n)
 	}
 }
